@@ -314,6 +314,8 @@ class Concretiser:
                 at.append(self.attr_text("data", n["data"], object_inner=True))
             return self.element("template", at, "")
         if t == "include":
+            if "src" in n:
+                return self.element("include", ['src="%s"' % n["src"]], "")
             p = n["path"]
             return self.element("include", ['src="%s"' % (p + (".wxml" if self.chance(0.3) else ""))], "")
         if t == "slot":
@@ -378,7 +380,7 @@ class Concretiser:
     # ---- files
     def file(self, f, fn_table):
         out = []
-        for p in f.get("imports", []):
+        for p in f.get("importSrcs", f.get("imports", [])):
             out.append('<import src="%s"/>' % p)
         for w in f.get("wxs", []):
             if "src" in w:
